@@ -297,6 +297,7 @@ class Effects:
     def effects(self, b, region, fn_level=False, limit=4):
         out = []
         stack = [region]
+        exits, accumulates = [], 0
         while stack and len(out) < limit:
             n = stack.pop()
             if b.macro_name(n) in LOG_MACROS:
@@ -305,6 +306,8 @@ class Effects:
             why = None
             if k == "MCall":
                 why = self._mcall(b, n, region, fn_level)
+                if why is None and n["name"] in SET_COMMUTATIVE and not self.own(b, n["recv"], region, fn_level):
+                    accumulates += 1
             elif k == "Call":
                 why = self._call(b, n, region, fn_level)
             elif k == "Assign":
@@ -314,17 +317,30 @@ class Effects:
                 if not self.own(b, n["l"], region, fn_level, direct=True):
                     if not (n.get("op") in COMMUTATIVE_OPS and (b.ty(n["l"]) or "") in INT_TYPES):
                         why = "non-commutative update `%s` of state outside the region" % n.get("op")
+                    else:
+                        accumulates += 1
             elif k == "Ret" and not fn_level:
                 e = n.get("e")
                 if e is not None and strip(e).get("k") not in ("Lit", "Path"):
                     why = "early return of a value that depends on the element"
+                else:
+                    exits.append(n)
             elif k == "Break" and n.get("e") is not None:
                 why = "break with a value"
+            elif k == "Break" and not fn_level:
+                loops = [a for a in b.ancestors(n) if a["k"] in ("For", "While", "Loop")]
+                inner_loop_inside = loops and any(a is region for a in b.ancestors(loops[0]))
+                if not inner_loop_inside:
+                    exits.append(n)
             elif k == "Try" and not fn_level:
                 why = "`?` leaves the iteration at the first failing element"
             if why:
                 out.append((n, why))
             stack.extend(c for _, c in kids(n))
+        if exits and accumulates and not out:
+            # `for x in set { if n == 3 { break } n += 1; seen.insert(x) }`: commutative updates are only order-insensitive
+            # when every element is visited
+            out.append((exits[0], "early exit after accumulating updates: which elements were processed depends on the order"))
         return out
 
     def _callee_inputs(self, path):
@@ -830,10 +846,12 @@ class _Silent:
 
 @RULES.rule("R11.1", "hash-container iteration order never reaches an order-sensitive consumer", floor=70)
 def r11_1(rep):
-    """Necessary: iterate `ctx.types` (keyed by `TypeKey`, which holds a `clang::Cursor`) into a Vec that names or
-    emits items and the output order changes with the address-space layout of each process; collect an
-    `FxHashSet<ItemId>` into a Vec that is emitted and the output order silently becomes a function of hashing
-    instead of declaration order."""
+    """Necessary: iterate `ctx.types` (keyed by `TypeKey`, which holds a `clang::Cursor` whose hash is
+    `clang_hashCursor`, i.e. pointer values) or the RandomState-hashed `includes` / `parsed_macros` into a Vec, a
+    `find`, a `for` that pushes, … and the result changes with the address-space layout / hash seed of each process.
+    A hash-ordered-but-stable iteration (FxHasher over ids or strings) that reaches an order-sensitive consumer makes
+    the output a function of the hashing library instead of declaration order (see R11.5); every such flow that
+    exists today is frozen below with the reason it cannot reach the bindings, any new one is reported."""
     prog = rep.prog
     hf, flows, listed = run_r11_1(rep, prog, STABLE_ORDERED_FLOWS)
     rep.need(flows, "any iteration over a hash container")
@@ -1220,10 +1238,16 @@ def _field_type(prog, adt, field):
 
 @RULES.rule("R11.5", "containers that order the output are ordered containers", floor=15)
 def r11_5(rep):
-    """Necessary: make `Module::children` / `codegen_items` an `FxHashSet<ItemId>` and items are emitted in hash order
-    (golden tests with a handful of items may still pass: small integer keys often iterate in insertion order);
-    drop the sort in `opaque_array_types_needed` and the `__BindgenOpaqueArrayN` helper types are emitted in hash
-    order of their alignments."""
+    """Necessary: make `Module::children` a `HashSet<ItemId>` and `Module::codegen` emits the items of every module in
+    hash order; make `allowlisted` one and the analyses seed their work lists — and thereby assign the lazily
+    numbered anonymous-item ids (`Item::local_id`) — in hash order; drop the sort in `opaque_array_types_needed`
+    and the `__BindgenOpaqueArrayN` helper types come out in hash order of their alignments.  With FxHasher such an
+    order is the same in every process, but it is a function of rustc-hash's mixing function and of hashbrown's
+    growth policy, neither of which is among the inputs the property lists (headers, options, environment, libclang
+    version): two builds of bindgen that resolve `rustc-hash` differently would disagree byte-wise.  Golden tests
+    with a handful of items rarely notice (small integer keys often iterate in insertion order).
+    `codegen_items` is only probed with `contains` today; it is kept in the table because it is the same `ItemSet`
+    and R11.1 would otherwise be the only guard the day somebody iterates it."""
     prog = rep.prog
     for (adt, field), head in ORDERED_FIELDS.items():
         if head is None:
